@@ -10,7 +10,7 @@ SPEC = {
                  'every subset choice of names; the YAML route exercised on concrete files through the real ruamel parser',
     'bounds': {'quick': 'tables of 1 hit x 10 per-call key profiles of depth 1-3 (unknown keys included) with symbolic values, 2 hits for 3 profiles; '
                         'reset_prms with every leaf edited and a symbolic choice of which names are reset',
-               'thorough': 'as quick plus 3-hit tables'},
+               'thorough': 'as quick with 2 hits for 7 of the 10 profiles'},
     'outside': 'the YAML route for arbitrary values (a value has to pass through YAML text and ruamel\'s parser: concrete I/O; exercised '
                'for the packaged file, for MSA: null over a numeric global and for a nested override only)',
     'budget_s': {'quick': 1200, 'thorough': 3600},
@@ -142,7 +142,7 @@ def h_yaml(E):
 
 
 HARNESSES = [
-    H('H-routes', h_routes, quick=[(1, k) for k in range(10)] + [(2, 0), (2, 2), (2, 3), (2, 9)], thorough=[(n, k) for n in (1, 2) for k in range(10)] + [(3, 9)], float_model='R', scripted=True,
+    H('H-routes', h_routes, quick=[(1, k) for k in range(10)] + [(2, 0), (2, 2), (2, 3), (2, 9)], thorough=[(1, k) for k in range(10)] + [(2, k) for k in (0, 1, 2, 3, 4, 6, 9)], float_model='R', scripted=True,
       cover=['a poisoned global leaf is overridden per call', 'unknown key'],
       doc='2-run: per-call dictionary over a poisoned global vs edited global: same chunk parameters, tables, messages; unknown keys warn once and add nothing'),
     H('H-reset', h_reset, quick=[()], thorough=[()], cover=['partial reset', 'full reset', 'key added in place', 'key removed in place'], float_model='R',
